@@ -18,7 +18,7 @@
 EXTENDS Integers, FiniteSets, TLC
 
 CONSTANTS MaxT,      \* times 0..MaxT
-          Variant    \* "code" | "IgnoreBundled" | "NowNotStamp" | "SkipTsaChain" | "StampSelfVouches" | "NoChainDefault" | "AnchorNeedsNoValidity"
+          Variant    \* "code" | "IgnoreBundled" | "NowNotStamp" | "SkipTsaChain" | "StampSelfVouches" | "NoChainDefault" | "AnchorNeedsNoValidity" | "TsaAnyUsage" | "SharedPool"
 
 Time == 0..MaxT
 Windows == {<<0, MaxT>>, <<0, 1>>, <<2, MaxT>>}       \* always valid | expires after 1 | not valid before 2
@@ -29,7 +29,10 @@ VARIABLES c,      \* the case
 vars == <<c, pc, verdict>>
 
 Cases ==
-  [leafBy : {"int", "root", "self", "stranger"}, leafW : Windows, intW : Windows, intCA : BOOLEAN, bundled : BOOLEAN,
+  [leafBy : {"int", "root", "self", "stranger"}, leafW : Windows, intW : Windows, intCA : BOOLEAN,
+   bundled : {"none", "sig", "token"},  \* where the intermediate travels: not at all | among the signature's certificates | only inside the timestamp token
+   prior : {"none", "sawInt"},          \* an earlier verification in the same process met this intermediate (another signature bundled it)
+   tsaUsage : {"ts", "code"},           \* extended key usage of the authority's certificate: time stamping | code signing only
    anchors : {{"root"}, {"stranger"}, {"int"}, {"leaf"}, {"root", "stranger"}},
    ts : {"none", "ok", "foreign"},      \* no timestamp | one that covers this signature | one grafted from another signature
    tsaBy : {"root", "stranger"}, tsaW : Windows, gen : Time, now : Time, noChain : BOOLEAN]
@@ -44,10 +47,10 @@ LeafPath(k, t) ==
      \/ k.leafBy = "root" /\ "root" \in k.anchors
      \/ k.leafBy = "stranger" /\ "stranger" \in k.anchors
      \/ k.leafBy = "int" /\ k.intCA /\ In(t, k.intW)
-          /\ ("int" \in k.anchors \/ (k.bundled /\ "root" \in k.anchors))               \* int trusted directly, or known and chained to root
+          /\ ("int" \in k.anchors \/ (k.bundled = "sig" /\ "root" \in k.anchors))       \* int trusted directly, or bundled with the signature and chained to root
      \* a self-signed certificate is trusted only as an anchor (first disjunct)
 
-TsaPath(k, t) == In(t, k.tsaW) /\ k.tsaBy \in k.anchors
+TsaPath(k, t) == In(t, k.tsaW) /\ k.tsaBy \in k.anchors /\ k.tsaUsage = "ts"
 
 \* a timestamp that belongs to another signature condemns it whatever else holds; --no-trust-chain asks not to judge
 \* trust (the timestamp must still be this signature's own)
@@ -65,11 +68,17 @@ PipeLeafPath(k, t) ==
      \/ k.leafBy = "root" /\ "root" \in k.anchors
      \/ k.leafBy = "stranger" /\ "stranger" \in k.anchors
      \/ k.leafBy = "int" /\ k.intCA /\ (In(t, k.intW) \/ (Variant = "AnchorNeedsNoValidity" /\ "int" \in k.anchors))
-          /\ ("int" \in k.anchors \/ (k.bundled /\ Variant # "IgnoreBundled" /\ "root" \in k.anchors))
+          /\ ("int" \in k.anchors
+              \/ (k.bundled = "sig" /\ Variant # "IgnoreBundled" /\ "root" \in k.anchors)
+              \/ (Variant = "SharedPool" /\ (k.prior = "sawInt" \/ k.bundled = "token") /\ "root" \in k.anchors))
 
 Init == c \in Cases /\ pc = "start" /\ verdict = "none"
-        /\ (c.ts = "none" => (c.tsaBy = "root" /\ c.tsaW = <<0, MaxT>> /\ c.gen = 0))     \* (irrelevant without a timestamp)
-        /\ (c.leafBy # "int" => (c.intW = <<0, MaxT>> /\ c.intCA /\ ~c.bundled))          \* (irrelevant without an intermediate)
+        /\ (c.ts = "none" => (c.tsaBy = "root" /\ c.tsaW = <<0, MaxT>> /\ c.gen = 0 /\ c.tsaUsage = "ts" /\ c.bundled # "token"))   \* (irrelevant without a timestamp)
+        /\ (c.leafBy # "int" => (c.intW = <<0, MaxT>> /\ c.intCA /\ c.bundled = "none" /\ c.prior = "none"))     \* (irrelevant without an intermediate)
+        \* sampling: the odd authority and the earlier verification are combined with plain surroundings only
+        /\ (c.tsaUsage = "code" => (c.tsaW = <<0, MaxT>> /\ c.intW = <<0, MaxT>> /\ c.intCA /\ c.prior = "none" /\ c.bundled # "token"))
+        /\ (c.prior = "sawInt" => (c.bundled # "sig" /\ c.tsaW = <<0, MaxT>> /\ c.intCA))
+        /\ (c.bundled = "token" => (c.tsaW = <<0, MaxT>> /\ c.intCA))
 
 Decide ==
   /\ pc = "start" /\ pc' = "done"
@@ -77,7 +86,8 @@ Decide ==
          t == IF c.ts # "none" /\ Variant # "NowNotStamp" THEN c.gen ELSE c.now
          tsOK == CASE c.ts = "none" -> TRUE
                    [] c.ts = "foreign" -> Variant = "StampSelfVouches"
-                   [] OTHER -> (Variant = "SkipTsaChain" \/ noChain \/ TsaPath(c, c.gen))
+                   [] OTHER -> (Variant = "SkipTsaChain" \/ noChain \/ TsaPath(c, c.gen)
+                                \/ (Variant = "TsaAnyUsage" /\ In(c.gen, c.tsaW) /\ c.tsaBy \in c.anchors))
      IN verdict' = IF tsOK /\ (noChain \/ PipeLeafPath(c, t)) THEN "accept" ELSE "reject"
   /\ UNCHANGED c
 
